@@ -59,8 +59,8 @@ def dump_full(schema):
 # schema cases
 # ---------------------------------------------------------------------------
 
-STRINGS = ['a', '', 'x y', 'q"uote', 'back\\slash', 'new\nline', 'tab\there', 'é', 'both "\\" ends"', '\\"', 'nul\x00l',
-           'bell\x07', 'uni sep', '\U0001F600']
+STRINGS = ['a', '', 'x y', 'q"uote', 'back\\slash', 'new\nline', 'tab\there', '\u00e9', 'both "\\" ends"', '\\"', 'nul\x00l',
+           'bell\x07', '\U0001F600']   # (no U+2028/U+0085: common.Driver.ask splits answers with str.splitlines)
 
 
 def gen_desc(rng, size, with_subscription=None):
